@@ -43,6 +43,41 @@ TEXT = {
    note="trusted: as C01",
    technique="Lean 4 proof (corollaries of the by-tag lookup theorems) + differential correspondence + Go round-trip oracle",
    design="§4/C16"),
+ "C03": dict(
+   text="Lean 4 theorems: (a) framing (Mpx/Frame): for every list of messages below 2^32 bytes the reader recovers exactly the list from the concatenated frames, and from ANY cut of the byte stream exactly a prefix of it (frames_roundtrip, frames_cut); (b) delivery LTS (Mpx/Delivery: per-channel sender, one shared FIFO write queue, receive loop dispatch by channel id, per-channel receive queues, open/close frames carrying payloads), for all schedules of any length and any number of channels: the inductive invariant 'received ++ queued ++ in-flight(ch) = sent(ch)' (inv_run, conservation) gives that what Receive returned is always a prefix of what was sent on that channel, no duplication or cross-channel leak (delivered_prefix), and is the whole sequence once the receiver has drained after the sender's close (complete_after_close); (c) no lost wake-up between the byte queues and their reader loops (WakeProps, for all interleavings of writes/close with the repaired loop order; the unrepaired order has a 5-step counterexample). Tie: 15 event-sequence obligations regenerated from mpx/*.go and rpc/*.go on every run + seeded concurrent scenarios against the real packages over loopback (window 1B..16MiB, write queue/buffers down to 16B, lz4 on/off, 1..N channels, both directions) whose oracle is the property itself (prefix / completeness / no cross-channel payload).",
+   note="trusted: Lean kernel, the hand-written LTS (atomic steps = critical sections of the Go code, tied by event sequences, not by a translator), TCP as a reliable ordered byte stream, Go scheduler sampled by seeded yields; lz4 not modelled. Found and repaired: lost wake-up (F19). Known finding F19b (dependency) reported as KNOWN-FINDING.",
+   technique="Lean 4 proof (inductive invariant over an LTS, induction over schedules) + regenerated event-sequence ties + seeded scenario runs against the implementation",
+   design="§4/C03"),
+ "C06": dict(
+   text="Lean 4 theorems on the reference-counting LTS of one channel object (Mpx/Chan: user thread with API calls and one Free, any number of connection-side frees racing on the freec CAS, any number of receive-loop dispatches holding stale map pointers; steps = single atomic operations) for every interleaving of any length: the 9-clause invariant is inductive (inv_reachable), hence no path reaches a panic (no_panic: no 'acquire of freed channel', no double free, no nil state), the state object is present whenever a thread holds a reference (state_while_held), and a frame that arrives after the channel was freed is dropped (late_frame_dropped); the pre-repair protocol (plain Add instead of CAS) has a concrete reachable panic (unrepaired_counterexample). Tie: 12 event-sequence obligations + multi-channel scenarios with every ending mode on both sides under seeded yields at the refcount and map operations, and the deterministic replay of F11.",
+   note="trusted: Lean kernel, the LTS (atomics linearizable), event-sequence ties; sibling-channel delivery is checked by the scenario oracle (C03's), not re-proved here. A handler that itself calls Free on the channel the library frees on return is API misuse (documented false alarm, §7).",
+   technique="Lean 4 proof (inductive invariant, finite control x unbounded counters, induction over schedules) + regenerated event-sequence ties + seeded scenario runs",
+   design="§4/C06"),
+ "C07": dict(
+   text="Lean 4 theorems on the flow-control LTS (Mpx/Flow: sender window, admission rule window>=min(size,W/2), receiver consumption and half-window acknowledgement, frames and window updates in flight) for EVERY window W>=1, every size sequence and every interleaving: conservation of window credit (conservation), outstanding unacknowledged payload <= max(W, W - W/2 + size) at every admission (admit_bound), only the sender debits and only data frames are debited (only_sender_debits, closing payload exempt), the receiver acknowledges after at most W/2 consumed bytes (ack_rule), and no reachable state is a deadlock: if the receiver has consumed everything delivered then a blocked Send is admissible or a window update is in flight (no_deadlock, quiescent_admits); plus the wake-up theorems (WakeProps) for the one-slot notification. Tie: event-sequence obligations for decrementSendWindow/receiveWindow/Send/ReceiveAsync/sendLoop + a differential stream: random and boundary flow scripts (W, sizes around W/2 and W, consumes, close) run against a real client/server pair and on the Lean model, comparing for every step admitted-immediately vs parked and the emitted window deltas.",
+   note="trusted: Lean kernel, the LTS, event-sequence ties, timing-based classification of 'parked' in the harness (settle times), eventual delivery (C03). Found and repaired: lost wake-up (F19).",
+   technique="Lean 4 proof (inductive invariant over all W and schedules, omega) + regenerated event-sequence ties + differential correspondence on flow scripts",
+   design="§4/C07"),
+ "C09": dict(
+   text="Lean 4 theorems: no cut of the byte stream ever yields a partial frame as a message (no_partial_frame, from C03's framing theorems; chunked_read_short in C11); every blocking operation of the library (Send on window, Send on write queue, Receive, Conn.Channel) selects on an event that conn.close/closeChannels/channelState.close fires, and close fires all of them (close_wakes_every_waiter, a decidable statement over the regenerated event sequences, with parked_closed_wakes for the queue notification); the late-open protocol (a channel opened by a frame processed while closeChannels sweeps the map) is closed in every interleaving (lateInv_run, late_open_closed; the unrepaired order has a counterexample). Tie: 18 event-sequence obligations + fault injection against the real packages: a TCP proxy cuts recorded sessions at every byte offset (quick: every offset in one direction + strides; thorough: all offsets, three cut modes, 200 KiB lz4 and plain sessions, rpc unary/streaming, on-demand and auto-connect recovery) and checks bounded-time non-OK return of every blocked call, context cancellation, handler release, no panic, no partial payload.",
+   note="partial: boundedness in time and client recovery are decided by the scenarios (sampled schedules), the theorems cover framing, the wake-up structure and the late-open race. trusted: OS reports the cut. Found and repaired: F16 (handler never released).",
+   technique="Lean 4 proof (framing lemmas, decidable statements over regenerated event sequences, finite-state invariant) + exhaustive-offset fault injection against the implementation",
+   design="§4/C09"),
+ "C11": dict(
+   text="Lean 4 theorems on the server handshake/dispatch model (Mpx/Handshake) for every protocol line, first frame and following frame sequence: handlers run iff the line is the pinned ProtocolLine and the first frame is a connect request listing version 1.0 (serve_iff, handlers_only_if_negotiated), a refused or unnegotiated connection never runs a handler and the refusal path returns an error (refused_never_served, unnegotiated_never_served, refusal_returns_error over the regenerated event sequence), frame dispatch is total and frames for unknown channels are dropped (dispatch_total, unknown_channel_dropped, hostile_frames_confined); the protocol line is decided after at most len(ProtocolLine) bytes (line_bounded, line_decided, line_accepts) and a frame body is read in chunks with the same result as one read while never holding more than one 1 MiB chunk beyond the bytes received (chunked_read_same, chunked_read_short, alloc_bounded). Tie: event-sequence + constant obligations, and a scripted raw-TCP peer against a real server with a healthy client on a second connection: every handshake variation, grammar-mutated frames, the C02 hostile corpus, oversized length prefixes (child process with heap accounting).",
+   note="trusted: Lean kernel, the handshake/dispatch model, C02 for payload parsing; no handshake deadline exists (a silent peer keeps its own connection). Found and repaired: refusal served (F13), 4 GiB allocation from a 4-byte prefix (F24), unbounded protocol line (F25).",
+   technique="Lean 4 proof (case analysis, induction over frame lists and chunk counts) + regenerated event-sequence/constant ties + scripted hostile-peer scenarios",
+   design="§4/C11"),
+ "C19": dict(
+   text="Lean 4 theorems: back-off with Go's exact integer semantics (shift >= 64, uint16 wrap): for EVERY attempt >= 2 the wait lies in [25 ms, 1 s] and never decreases with the attempt number (backoff_bounds, backoff_monotone); bookkeeping LTS (Mpx/Client: critical sections under client.mu + dial results and callbacks) for both modes, every MaxConns and every schedule: exactly one of Connected/Disconnected, Connected implies a listed connection, connections + in-flight dial <= max(1,MaxConns) (inv_reachable, exactly_one_flag, conns_bounded), Close is terminal and idempotent, no connection is registered and no dial is started after Close (closed_terminal, close_idempotent, no_conn_after_close, no_dial_after_close), recovery (ondemand_redials, auto_rearms). Tie: 9 event-sequence obligations; differential stream reconnectTimeout(a) for 464 attempt numbers incl. 2^k boundaries; scenarios against a real server behind a counting TCP proxy (stop/start, refuse, reset, kill, concurrent Conn/Channel/Close).",
+   note="trusted: Lean kernel, the LTS (mutex sections atomic), event-sequence ties, timer resolution. Found and repaired: redial for ever after Close (F20), cancelled instead of closed (F21), constructor data race (F22). Known finding F23 (no back-off when the server accepts TCP and drops before the handshake) is reported as KNOWN-FINDING.",
+   technique="Lean 4 proof (modular arithmetic + finite case split for back-off; inductive invariant for the LTS) + regenerated event-sequence ties + differential back-off stream + scenario runs",
+   design="§4/C19"),
+ "C20": dict(
+   text="Lean 4 theorems on the listener LTS (Mpx/Listeners: registration = flag check, insert, re-check with own Delete; notification = passes of Range + Delete-then-call until a pass takes nothing; unsubscribe; connection close) for every interleaving: the 18-clause invariant is inductive (inv_reachable) and gives: a listener is called at most once (at_most_once), never if its registration reported 'already closed' (failed_never_called), exactly once after close if registration succeeded and it was not unsubscribed (ok_called_once), never after a successful unsubscribe before close (unsub_never_called); the unrepaired protocol has a concrete double call (unrepaired_counterexample). Tie: event-sequence obligations for addClosed/notifyClosed/close/receiveOpen + scenarios under seeded yields: channel opens (single frames and open+close batches), handler exits, registration/unsubscription racing with shutdown from either side; oracle counts handler invocations per channel id, context cancellation and listener calls.",
+   note="trusted: Lean kernel, the LTS (xsync.Map linearizable), event-sequence ties; 'handler invoked exactly once per opened channel' and context cancellation are decided by the scenario oracle plus C09's late-open theorem. Found and repaired: F12.",
+   technique="Lean 4 proof (inductive invariant by full finite case split, induction over schedules) + regenerated event-sequence ties + seeded scenario runs",
+   design="§4/C20"),
 }
 
 def main():
@@ -64,6 +99,9 @@ def main():
             "technique": t["technique"],
         })
     man["checks"] = checks
+    import subprocess
+    log = subprocess.run(["git", "-C", "/repo", "log", "--format=%h %s"], stdout=subprocess.PIPE).stdout.decode().split("\n")
+    man["hooks"]["source_commits"] = [l.split(" ")[0] for l in log if l.split(" ", 1)[-1].startswith("verif hooks")][::-1]
     claimed = {c["property_id"] for c in checks}
     na = json.load(open(os.path.join(VERIF, "run", "not_applicable.json")))
     man["not_applicable"] = [{"property_id": p, "reason": na.get(p, "check not built yet (planned: DESIGN.md §9); no verdict is claimed for this property")} for p in ALL if p not in claimed]
